@@ -27,6 +27,7 @@
 #include "settings.h"
 #include "suppressions.h"
 #include "timer.h"
+#include "verifev.h"
 
 #include <cassert>
 #include <cstdlib>
@@ -56,6 +57,8 @@ public:
     void reportOut(const std::string &outmsg, Color c) override
     {
         std::lock_guard<std::mutex> lg(mReportSync);
+        VERIF_EV_LOCKED("mReportSync", lg);
+        VERIF_EV("wr", "mErrorLogger");
 
         mErrorLogger.reportOut(outmsg, c);
     }
@@ -65,16 +68,22 @@ public:
             return;
 
         std::lock_guard<std::mutex> lg(mReportSync);
+        VERIF_EV_LOCKED("mReportSync", lg);
+        VERIF_EV("wr", "mErrorLogger");
         mErrorLogger.reportErr(msg);
     }
 
     void reportMetric(const std::string &metric) override {
         std::lock_guard<std::mutex> lg(mReportSync);
+        VERIF_EV_LOCKED("mReportSync", lg);
+        VERIF_EV("wr", "mErrorLogger");
         mErrorLogger.reportMetric(metric);
     }
 
     void reportStatus(std::size_t fileindex, std::size_t filecount, std::size_t sizedone, std::size_t sizetotal) {
         std::lock_guard<std::mutex> lg(mReportSync);
+        VERIF_EV_LOCKED("mReportSync", lg);
+        VERIF_EV("wr", "mErrorLogger");
         mThreadExecutor.reportStatus(fileindex, filecount, sizedone, sizetotal);
     }
 
@@ -101,6 +110,9 @@ public:
 
     bool next(const FileWithDetails *&file, const FileSettings *&fs, std::size_t &fileSize) {
         std::lock_guard<std::mutex> l(mFileSync);
+        VERIF_EV_LOCKED("mFileSync", l);
+        VERIF_EV("wr", "mItNextFile");
+        VERIF_EV("wr", "mItNextFileSettings");
         if (mItNextFile != mFiles.end()) {
             file = &(*mItNextFile);
             fs = nullptr;
@@ -152,6 +164,9 @@ public:
 
     void status(std::size_t fileSize) {
         std::lock_guard<std::mutex> l(mFileSync);
+        VERIF_EV_LOCKED("mFileSync", l);
+        VERIF_EV("wr", "mProcessedSize");
+        VERIF_EV("wr", "mProcessedFiles");
         mProcessedSize += fileSize;
         mProcessedFiles++;
         if (!mSettings.quiet)
@@ -202,6 +217,7 @@ unsigned int ThreadExecutor::check()
 
     ThreadData data(*this, mErrorLogger, mTimerResults, mSettings, mSuppressions, mFiles, mFileSettings, mExecuteCommand);
 
+    VERIF_EV("fork", "threads");
     for (unsigned int i = 0; i < mSettings.jobs; ++i) {
         try {
             threadFutures.emplace_back(std::async(std::launch::async, &threadProc, &data));
@@ -215,6 +231,7 @@ unsigned int ThreadExecutor::check()
     unsigned int result = std::accumulate(threadFutures.begin(), threadFutures.end(), 0U, [](unsigned int v, std::future<unsigned int>& f) {
         return v + f.get();
     });
+    VERIF_EV("join", "threads");
 
     return result;
 }
